@@ -16,6 +16,15 @@ checks = {
  "C09": dict(design="4/C09", technique="TLC enumeration of the acts family of Engine.tla replayed on the real library + TLC trace validation (Engine_Trace) of recorded random executions",
    text="Action semantics (setvar arithmetic, macro expansion at the moment of the match, once-per-chain disruptive actions, HIGHEST_SEVERITY) are defined in Engine.tla; TLC enumerates action lists x match multiplicities x chains x multiMatch in every iteration order; final TX contents and the anomaly-threshold interruption of the real library are compared with the specification; recorded executions are validated step by step (every operator evaluation and rule-loop branch).",
    note="Trusts TLC, the renderer, the verif hooks (operator/rule-loop events) and the TX projection through the internal Variables() accessor."),
+ "C04": dict(design="4/C04", technique="TLC enumeration of Engine.tla families under every iteration order (order = explicit nondeterministic choice) + repeated replay on fresh and long-lived real WAFs under imposed map orders (verif hook), outcomes compared as multisets with the specification's single value",
+   text="The runtime's hash-iteration order is an explicit nondeterministic choice of the specification at every rule evaluation, so 'the outcome is a function of configuration and request' is checked by TLC over all orders on the model, and on the real library by running each enumerated scenario repeatedly on fresh and pooled WAFs under natural and imposed (sorted, reverse, rotate-per-walk, shuffle) orders and requiring one projected outcome, equal to the specification's.",
+   note="Trusts TLC, the order hook (permutes only what the Go runtime may permute: map keys), and the projection. Order-dependent counters (assignments from MATCHED_VAR) are outside the projection, as the property says."),
+ "C12": dict(design="4/C12", technique="TLC model checking of the EngineCache refinement layer (invariant CacheSound, every iteration order) + replay on the real library under imposed orders; self-test that the pinned position-based key design violates CacheSound in TLC",
+   text="The per-phase transformation cache is modelled with the key the code uses (one operator, CacheKey); TLC checks CacheSound (every operator evaluation receives the rule's own transformation of the datum it looks at) in every state over rules sharing full/partial transformation lists, repeated names and targets whose content changes (MATCHED_VAR); every scenario is replayed on the real library under imposed iteration orders and compared with the cache-free specification outcome.",
+   note="Trusts TLC, the order hook and key-string interning in the driver (mirrors url.ParseQuery handing every value of a name the same key string)."),
+ "C17": dict(design="4/C17", technique="TLC enumeration of the dirs family of Engine.tla (directives as rule-list rewriting ApplyDir, ctl as run-time state) replayed on the real library, two consecutive transactions per WAF",
+   text="Every exclusion/update directive is defined in Engine.tla as a rewriting of the rule list and every ctl counterpart as run-time interpreter state; TLC enumerates a base rule set x all directive shapes (single ids, lists, ranges, tags, messages; additions and exclusions; disruptive and non-disruptive action updates) and ctl placements x requests; the real library compiling the directive form must behave like the specification's rewritten rule set, also for the next transaction on the same WAF.",
+   note="Trusts TLC and the renderer. Updates that mix additions and exclusions in one directive are not generated (their relative scope is not documented)."),
 }
 
 not_built_reason = "check under construction in this session (see DESIGN.md section 4); not claimed until its machinery is committed"
